@@ -1,3 +1,71 @@
-From Verif Require Import model.Dist.
-Example C02_placeholder : True. Proof. exact I. Qed.
-Print Assumptions C02_placeholder.
+(* C02 — no inverter or battery group is commanded outside its power bounds.
+   Statements only; every proof is `exact <lemma>` from proofs/Dist*.v.  Same model and vocabulary as props/C01.v.
+   [setpoint_ok gs a]  a = (inverter id, set-point): the set-point is zero, or some inverter of gs with that id has it
+                       inside its inclusion bounds and outside its exclusion zone
+   [group_full g gr]   the total of group g's inverters is inside the aggregated battery inclusion bounds and is zero or
+                       outside the aggregated battery exclusion zone
+   On the unchanged tree C02_no_headroom and C02_group were refuted by corpus/C02/exact_fixed_F2_F3.json
+   (fix commits ccb79d8, fcfd05e). *)
+From Coq Require Import QArith List.
+From Verif Require Import model.Dist proofs.DistFacts proofs.DistBounds proofs.DistTop proofs.DistWitness.
+Import ListNotations.
+Open Scope Q_scope.
+
+(* groups with two or more inverters: unconditional on the run *)
+Theorem C02_inverter_multi : forall powf gs p r gr,
+  wf_groups gs -> czero p = false -> distribute powf gs p = Some r -> In gr (res_groups r) ->
+  length (pg_invs (gr_src gr)) <> 1%nat ->
+  forall a, In a (gr_sp gr) -> setpoint_ok gs a.
+Proof. exact distribute_inverter_multi. Qed.
+
+(* every inverter; for single-inverter groups the set-point is the group's power, whose lower bound needs side_ok *)
+Theorem C02_inverter_partial : forall powf gs p r gr,
+  wf_groups gs -> czero p = false -> side_ok powf gs p -> distribute powf gs p = Some r -> In gr (res_groups r) ->
+  forall a, In a (gr_sp gr) -> setpoint_ok gs a.
+Proof. exact distribute_inverter_all. Qed.
+
+(* group totals: inside the battery inclusion bounds always; zero or outside the battery exclusion zone when the
+   split over the group's inverters leaves nothing over (always the case for single-inverter groups) *)
+Theorem C02_group_partial : forall powf gs p r gr,
+  wf_groups gs -> czero p = false -> side_ok powf gs p -> distribute powf gs p = Some r -> In gr (res_groups r) ->
+  exists g, In g gs /\ gr_src gr = prepare (supply_of p) powf g /\
+            (let a := aggregate (g_bats g) in a_il a <= sumsp (gr_sp gr) <= a_iu a) /\
+            (gr_left gr == 0 -> group_full g gr).
+Proof. exact distribute_group_partial. Qed.
+
+(* known finding C02-split-leftover: at full strength the group clause is false *)
+Theorem C02_group_refuted :
+  exists gs p r gr g,
+    wf_groups gs /\ admitted gs p /\ side_ok idf gs p /\ distribute idf gs p = Some r /\
+    In gr (res_groups r) /\ In g gs /\ gr_src gr = prepare (supply_of p) idf g /\
+    ~ group_full g gr /\ ~ gr_left gr == 0.
+Proof. exact split_leftover_witness. Qed.
+
+(* a group with no SoC headroom in the requested direction gets zero on every inverter, for every pow function
+   with pow(0) = 0, i.e. every exponent > 0 (exponent 0: pow(0, 0) = 1, known finding C02-exponent0-full-battery) *)
+Theorem C02_no_headroom : forall powf gs p r gr g,
+  wf_groups gs -> czero p = false -> distribute powf gs p = Some r -> In gr (res_groups r) ->
+  gr_src gr = prepare (supply_of p) powf g -> no_headroom (supply_of p) g -> powf 0 == 0 ->
+  forall a, In a (gr_sp gr) -> snd a == 0.
+Proof. exact distribute_no_headroom. Qed.
+
+(* every battery group and every inverter of the input appears in the result exactly once *)
+Theorem C02_every_component_has_a_setpoint : forall powf gs p r,
+  czero p = false -> distribute powf gs p = Some r ->
+  Permutation.Permutation (map gr_src (res_groups r)) (pgs_of powf gs p) /\
+  forall gr, In gr (res_groups r) ->
+    Permutation.Permutation (map fst (gr_sp gr)) (map pi_id (pg_invs (gr_src gr))).
+Proof. exact distribute_complete. Qed.
+
+Example C02_nonvacuous :
+  wf_groups [ex_full; ex_g1] /\ no_headroom false ex_full /\ admitted [ex_full; ex_g1] 100 /\
+  wf_groups ex_gs /\ (side_ok idf ex_gs 120 /\ side_ok idf ex_gs (-120)).
+Proof. exact (conj ex_full_wf (conj (proj1 ex_full_no_headroom) (conj (proj2 ex_full_no_headroom) (conj ex_wf ex_side_ok)))). Qed.
+
+Print Assumptions C02_inverter_multi.
+Print Assumptions C02_inverter_partial.
+Print Assumptions C02_group_partial.
+Print Assumptions C02_group_refuted.
+Print Assumptions C02_no_headroom.
+Print Assumptions C02_every_component_has_a_setpoint.
+Print Assumptions C02_nonvacuous.
